@@ -82,6 +82,8 @@ def check_receive(ctx):
         lenvars = {t.id for n in cfg.real_nodes() if isinstance(n.ast, ast.Assign) and any(call_name(c) == "self._receive_buffer.wait_for_byte" and _is_peek(c, 0) for c in n.calls) for t in n.ast.targets if isinstance(t, ast.Name)}
         extra = 1 + struct.calcsize(">" + repo.const("SecsIBlock", "checksum_format"))
         a = rc.args[0] if rc.args else None
+        if isinstance(a, ast.Name):
+            a = rules.expand_ast(cfg.func, a, depth=1)  # the size given a name first
         ok = isinstance(a, ast.BinOp) and isinstance(a.op, ast.Add) and ((norm(a.left) in lenvars and isinstance(a.right, ast.Constant) and a.right.value == extra) or (norm(a.right) in lenvars and isinstance(a.left, ast.Constant) and a.left.value == extra))
         ctx.ob("C17.P1", q, ok, f"the block read waits for length byte + {extra} bytes (length byte itself + checksum), however the line chunks them" if ok else
                f"the block read takes `{norm(a) if a is not None else None}` bytes; a block is its length byte value + {extra} bytes (length byte + 2 checksum bytes): the cursor drifts", key="block-size", where=f.where)
@@ -153,6 +155,8 @@ def check_send(ctx):
         n, c = res[0]
         rvars = {t.id for w in waits if blocks and cfg.dominates(blocks[0], w) and isinstance(w.ast, ast.Assign) for t in w.ast.targets if isinstance(t, ast.Name)}
         a = c.args[0] if c.args else None
+        if isinstance(a, ast.Name):
+            a = rules.expand_ast(cfg.func, a, depth=1)  # the comparison given a name first
         ok = isinstance(a, ast.Compare) and len(a.ops) == 1 and isinstance(a.ops[0], ast.Eq) and {norm(a.left), norm(a.comparators[0])} & rvars and "self.ACK" in (norm(a.left), norm(a.comparators[0]))
         ctx.ob("C17.P2", q, bool(ok), "the send succeeds iff the byte received after the block is ACK (NAK => failure)" if ok else f"`{norm(c)}` does not resolve with `response == ACK`: a NAKed block is reported as sent", key="resolve-value", where=f.where)
         gv = {t.id for t in rules.assigned_targets(gets[0].ast) if isinstance(t, ast.Name)} if gets and isinstance(gets[0].ast, ast.Assign) else set()
